@@ -18,6 +18,11 @@ inductive Expr
   | comb (o : Op3) (l r : Expr)                         -- ( l [o] r )
   | chain (o : Op3) (e₁ e₂ : Expr) (es : List Expr)     -- ( e₁ [o] e₂ [o] … ), es ≠ [] ⇒ ≥ 3 operands
   | shared (l : Option Str) (e : Expr) (r : Option Str) -- ( l e r ) with e a combination
+  /-- two combinations inside one component with text around and between them:
+      `( l (e₁) m (e₂) r )` — linked by the within-component conjunction wAND -/
+  | multi2 (l : Option Str) (e₁ : Expr) (m : Option Str) (e₂ : Expr) (r : Option Str)
+  /-- three combinations: `( l (e₁) m₁ (e₂) m₂ (e₃) r )` -/
+  | multi3 (l : Option Str) (e₁ : Expr) (m₁ : Option Str) (e₂ : Expr) (m₂ : Option Str) (e₃ : Expr) (r : Option Str)
   deriving Repr, Inhabited
 
 /-- One of the component symbols, by index into `Sym.all`. -/
@@ -72,6 +77,9 @@ def renderE : Expr → Str
   | .chain o e₁ e₂ es =>
       '(' :: renderE e₁ ++ ' ' :: o.br ++ ' ' :: renderE e₂ ++ renderChain o es ++ [')']
   | .shared l e r => '(' :: optPre l ++ renderE e ++ optPost r ++ [')']
+  | .multi2 l e₁ m e₂ r => '(' :: optPre l ++ renderE e₁ ++ ' ' :: optPre m ++ renderE e₂ ++ optPost r ++ [')']
+  | .multi3 l e₁ m₁ e₂ m₂ e₃ r =>
+      '(' :: optPre l ++ renderE e₁ ++ ' ' :: optPre m₁ ++ renderE e₂ ++ ' ' :: optPre m₂ ++ renderE e₃ ++ optPost r ++ [')']
 def renderChain (o : Op3) : List Expr → Str
   | [] => []
   | e :: es => ' ' :: o.br ++ ' ' :: renderE e ++ renderChain o es
@@ -135,6 +143,13 @@ def denoteE (sl sr : List Str) : Expr → PNode
       denoteChain o sl sr (.comb o.str (if es.isEmpty then sl else []) (if es.isEmpty then sr else []) {} []
         (denoteE [] [] e₁) (denoteE [] [] e₂)) es
   | .shared l e r => denoteE (optList l) (optList r) e
+  -- text between two combinations is shared right text of the first and shared left text of the second
+  | .multi2 l e₁ m e₂ r =>
+      .comb opWAND [] [] {} [] (denoteE (optList l) (optList m) e₁) (denoteE (optList m) (optList r) e₂)
+  | .multi3 l e₁ m₁ e₂ m₂ e₃ r =>
+      .comb opWAND [] [] {} []
+        (.comb opWAND [] [] {} [] (denoteE (optList l) (optList m₁) e₁) (denoteE (optList m₁) (optList m₂) e₂))
+        (denoteE (optList m₂) (optList r) e₃)
 /-- a same-operator chain associates to the left; shared text sits on the outermost node -/
 def denoteChain (o : Op3) (sl sr : List Str) (acc : PNode) : List Expr → PNode
   | [] => acc
